@@ -17,9 +17,11 @@ slice the original off a char boundary (panic) or at the wrong place. Decides th
 factor (NOT) from factor, and a looser level is re-entered from factor only after a matched "(" literal; each level's action builds its own node (Or / And / Not).
 (f) work per command is bounded by the data, not by a value in it: TemporalCalendarIndex::add_zone_range walks every hour bucket between its two bounds, so every call site passes either one value twice
 or a range that a comparison with a constant has bounded (a zone holding two time values centuries apart otherwise makes FLUSH - and every later FLUSH / QUERY of the shard - hang).
+(g) the nesting guard reads a command the way the grammar does: check_expr_nesting skips string literals, so it must end a literal exactly where the grammars' string_literal rule ends it - the
+guard treats a backslash as an escape if and only if the rule does (today neither does). A guard that skips `\"` while the grammar ends the literal there never counts the parentheses that follow.
 """
-FLOOR = 6
-REQUIRED = ["C17.a1", "C17.a2", "C17.b", "C17.c", "C17.d", "C17.e", "C17.f"]
+FLOOR = 7
+REQUIRED = ["C17.a1", "C17.a2", "C17.b", "C17.c", "C17.d", "C17.e", "C17.f", "C17.g"]
 
 PANIC = re.compile(r"(option::Option::(unwrap|expect|unwrap_unchecked)|result::Result::(unwrap|expect|unwrap_err|expect_err|unwrap_unchecked)|"
                    r"panicking::(panic\w*|unreachable_display|assert_failed\w*|begin_panic\w*)|rt::(begin_panic|panic_fmt)\w*)$")
@@ -540,6 +542,42 @@ def run(ctx):
             raise AnchorMissing("call sites of TemporalCalendarIndex::add_zone_range")
         return bad
     ctx.run("C17.f", "K8 GUARD", "callers of TemporalCalendarIndex::add_zone_range", "the calendar bucket walk is bounded", f_)
+
+    def g_(inst):
+        b = F.fn("commands::query::check_expr_nesting")
+        consts = set()
+        for i in sorted(b.live_blocks()):
+            t = b.blocks[i]["t"]
+            if t["t"] == "switch":
+                pl = t["d"].get("m") or t["d"].get("c") or []
+                if pl and ("[" in "".join(str(x) for x in pl[1:]) or b.local_ty(pl[0]) == "u8"):
+                    for v_, _tg in t["v"]:
+                        if str(v_).isdigit():
+                            consts.add(int(v_))
+            for st in b.blocks[i]["s"]:
+                v = st.get("v")
+                if v and v.get("r") == "bin" and v.get("op") in ("Eq", "Ne"):
+                    for o_ in (v["a"], v["b"]):
+                        m_ = re.match(r"^(\d+)_u8$", o_.get("k") or "")
+                        if m_:
+                            consts.add(int(m_.group(1)))
+        guard_bs = 92 in consts
+        inst.sites.append("check_expr_nesting compares bytes with %s" % sorted(chr(c) for c in consts if 32 <= c < 127))
+        if 34 not in consts:
+            raise AnchorMissing("the string-literal skip of check_expr_nesting (no comparison with '\"')")
+        bad = []
+        for gname, pre in (("query", "command::parser::commands::query::sneldb_query::"), ("plotql", "command::parser::commands::plotql::plotql_parser::")):
+            k = pre + "__parse_string_literal"
+            if not F.has(k):
+                raise AnchorMissing(k)
+            g = F.fn_exact(k)
+            lits = {l[1] for c_ in g.find_calls(r"parse_string_literal$") for l in g.origins(c_.args[2]) if l[0] == "const"}
+            rule_bs = any("\\\\" in x for x in lits)
+            inst.sites.append("%s string_literal literals: %s" % (gname, sorted(lits)))
+            if guard_bs != rule_bs:
+                bad.append(("guard-reads-strings-differently:%s" % gname, "check_expr_nesting %s a backslash inside a string literal as an escape while the %s grammar's string_literal rule %s: the guard and the parser disagree on where a literal ends, and nesting after it is not counted" % ("treats" if guard_bs else "does not treat", gname, "does" if rule_bs else "does not"), None))
+        return bad
+    ctx.run("C17.g", "K11 SIB", "check_expr_nesting vs string_literal (query, PlotQL)", "the nesting guard and the grammar agree on where a string literal ends", g_)
 
 
 # cycles whose overflow was reproduced against the real code (DESIGN.md §4c); others are reported as notes until triaged
